@@ -65,6 +65,14 @@ func main() {
 		}
 	}
 	c.Testing = strings.HasSuffix(os.Args[0], ".test") && vf != ""
+	if c.Prop == "C12" && c.Sub == "exec" { // the probe process of C12: one call, reports through files of its own
+		if cf := c.X("casefile", ""); cf != "" {
+			b, _ := os.ReadFile(cf)
+			c.Extra["case"] = string(b)
+			c12exec(&c, out)
+		}
+		c12execNegative(&c, out)
+	}
 	f := subs[c.Prop+"/"+c.Sub]
 	if f == nil {
 		var ks []string
@@ -74,9 +82,6 @@ func main() {
 		sort.Strings(ks)
 		fmt.Fprintf(os.Stderr, "harness usage error: unknown workload %s/%s (have %v)\n", c.Prop, c.Sub, ks)
 		os.Exit(3)
-	}
-	if f2, ok := rawSubs[c.Prop+"/"+c.Sub]; ok && f2 {
-		// raw workloads manage their own reporting (process-level probes)
 	}
 	var err error
 	c.R, err = rep.Open(out)
@@ -88,7 +93,6 @@ func main() {
 	c.R.Done()
 }
 
-var rawSubs = map[string]bool{}
 
 // Each runs fn for every case index of this child (or just -only), journalling the
 // index first and turning an escaping panic into a violation of clause "panic".
